@@ -12,7 +12,7 @@ from .c02 import default_only_when_none
 from .c09 import OPT_KEEP, octx
 
 PROP = "C16"
-FLOORS = {"C16.R1": 7, "C16.R2": 6, "C16.R3": 5, "C16.R4": 4, "C16.R5": 2}
+FLOORS = {"C16.R1": 7, "C16.R2": 6, "C16.R3": 5, "C16.R4": 4, "C16.R5": 2, "C16.R6": 1}
 META = {
     "explanation": "The statement is numerical; only what is visible without numbers is decided. Symbolic shape inference on the "
                    "symbolic terms (distinct symbols for m, n, k, the cutoff and a second right-hand-side axis) of SVD.lstsq, the "
@@ -531,3 +531,9 @@ def check(col: Collector):
         shared(col, "C16.R5", [c10._limits],
                select=lambda o: o.construct.startswith("MeritFunctionForMatch._get_x_limits#") or construct_tag(o) == "both-limit-sides",
                why="rescale_x maps [0,1] onto the x-limits; limits converted with another factor than the knobs break the inverse pair")
+    # round 7: solve() seeds the solver from the current knobs (which also clears the solver's memory of knobs blocked at a limit)
+    from . import c09
+    with col.rule():
+        shared(col, "C16.R6", [c09._solve], select=lambda o: construct_tag(o) == "solver-seeded-from-current-knobs",
+               why="a solver not re-seeded keeps mask_from_limits of an earlier run: the first step solves without that knob's column and "
+                   "does not land on the solution of a linear problem")
